@@ -288,17 +288,26 @@ def monitorC04Followups (script : List Cmd) (iters : List Iter) (d : Nat) : Opti
   let calls := processedCalls script iters cmdDaemon
   let browses := calls.filterMap fun ((c, k0) : Cmd × Nat) =>
     match c with | .browse d' _ ty false => if d' == d then some (ty, k0) else none | _ => none
+  -- (a browse_cache of a type makes it cache-only - the last browse / browse_cache call decides,
+  -- repair of D23 / D23b - and a cache-only browse asks nothing: it ends the active browse)
   let ends := calls.filterMap fun ((c, k) : Cmd × Nat) =>
     match c with
     | .stopBrowse d' _ | .shutdown d' _ => if d' == d then some k else none
+    | .browse d' _ _ true => if d' == d then some k else none
     | _ => none
   let tEnd := (iters.getLast?.map (·.now)).getD 0
   ds.findSome? fun x =>
     match x.r.rdata with
     | .ptr f =>
-      -- the type is being browsed when the PTR arrives (a browse stopped before does not count)
+      -- the type is being browsed ACTIVELY when the PTR arrives (a browse stopped before does not
+      -- count, nor one replaced by a browse_cache: the last call for the type, in processing
+      -- order, up to the PTR's iteration must be an active browse)
+      let lastKind := (calls.filterMap fun ((c, k0) : Cmd × Nat) =>
+        match c with
+        | .browse d' _ ty co => if d' == d && ty == x.r.name && k0 ≤ x.k then some co else none
+        | _ => none).getLast?
       let browsed := (browses.any fun ((ty, k0) : BList × Nat) => ty == x.r.name && k0 < x.k) &&
-        (browsedAt calls d x.k).contains x.r.name
+        (browsedAt calls d x.k).contains x.r.name && lastKind == some false
       let firstPtr := !(ds.any fun y => y.k < x.k && y.r.ty == 12 && (match y.r.rdata with | .ptr g => lower g == lower f | _ => false))
       let srvSoon := ds.any fun y => y.r.ty == 33 && lower y.r.name == lower f && y.t ≤ x.t + 1600
       let stoppedSoon := ends.any fun k => k ≥ x.k && ((iters.toArray[k]?.map (·.now)).getD 0) ≤ x.t + 1600
